@@ -133,13 +133,19 @@ func feed(v valT) func(uri.Encoder) error {
 				return nil
 			})
 		default:
+			// generated EncodeURI calls EncodeField once per declared property; the callback of
+			// an unset optional property encodes nothing
+			unset := func(uri.Encoder) error { return nil }
+			if err := e.EncodeField("zz_unset_first", unset); err != nil {
+				return err
+			}
 			for _, f := range v.Obj {
 				val := bx.Str(f[1])
 				if err := e.EncodeField(bx.Str(f[0]), func(e uri.Encoder) error { return e.EncodeValue(val) }); err != nil {
 					return err
 				}
 			}
-			return nil
+			return e.EncodeField("zz_unset_last", unset)
 		}
 	}
 }
